@@ -137,7 +137,7 @@ class Result:
 
 
 class Interp:
-    def __init__(self, rendered, fuel=20000, max_depth=40, max_nest=40, max_out=1 << 20):
+    def __init__(self, rendered, fuel=20000, max_depth=40, max_nest=40, max_out=1 << 20, max_size=1 << 16):
         self.r = rendered
         self.pos = rendered.pos if rendered is not None else {}
         self.oppos = rendered.oppos if rendered is not None else {}
@@ -145,7 +145,7 @@ class Interp:
         self.max_depth = max_depth
         self.max_nest = max_nest
         self.max_out = max_out
-        self.max_size = 1 << 16
+        self.max_size = max_size
         self.out = []
         self.out_len = 0
         self.steps = 0
